@@ -17,7 +17,8 @@ EXTENDS Naturals, Sequences
 VARIABLES input,            \* the elements handed to the chunker
           cur, off,         \* next input element; characters of it already emitted as fragments
           MaxTokens,        \* budget (configuration, fixed per run)
-          Propagate         \* propagate_headings option (configuration, fixed per run)
+          Propagate,        \* propagate_headings option (configuration, fixed per run)
+          Graph             \* TRUE for the section-graph entry point
 
 Splittable(e) == e.kind \in {"paragraph", "list_item"}
 
@@ -29,6 +30,11 @@ HeadingOK(h, e) ==
   THEN \/ (e.heading.has /\ h.text = e.heading.text)
        \/ (e.kind = "title" /\ ~e.heading.has /\ h.text = e.text)     \* a title opens its own section
   ELSE ~Propagate \/ ~e.heading.has
+
+(* With heading propagation switched off the sequential chunker attaches no heading context to any chunk (that is
+   what the option means); the section-graph chunker may still name the title that opens the chunk's section.
+   `titles` = texts of the title elements up to and including the current one.                               *)
+PropagationOffOK(h, graph, titles) == Propagate \/ ~h.has \/ (graph /\ h.text \in titles)
 
 (* Deliberately NOT demanded: that all elements of a chunk carry the same heading.  The statement only says
    the chunk carries the heading of the section it belongs to; when a caller supplies adjacent non-title
@@ -59,7 +65,8 @@ Emit(c) == /\ cur <= Len(input)
            /\ EmitWhole(c) \/ EmitFragment(c)
            /\ Budget(c)
            /\ HeadingOK(c.heading, input[cur])
-           /\ UNCHANGED <<input, MaxTokens, Propagate>>
+           /\ PropagationOffOK(c.heading, Graph, {input[i].text : i \in {j \in 1..cur : input[j].kind = "title"}})
+           /\ UNCHANGED <<input, MaxTokens, Propagate, Graph>>
 
 \* nothing may be left over
 Complete == cur = Len(input) + 1 /\ off = 0
